@@ -39,6 +39,7 @@ struct ShapeDesc {
   bool se_lr[3];
   RK rk;
   unsigned line;
+  unsigned sline;   // line of the scoped (REQUIRE_CALL / ALLOW_CALL / FORBID_CALL) variant of the statement, 0 = none generated
   int tu;
   const char* text;
   bool forbidding_static() const { return bf == BF_FORBID || bf == BF_T0; }
